@@ -307,6 +307,40 @@ mod verif_search {
                 }
             }
         }
+        // position bookkeeping of the hash chains (16-bit internal positions, re-based every 0x7e00 bytes): long runs
+        // whose token boundaries sweep every alignment around the first and the second re-basing point, ending in a
+        // short far match plus literals so that the lazy probe one byte ahead runs right at the boundary
+        let fixed_ref = |b: &mut Bits, len: u32, dist: u32| {
+            let mut q = 28; while LB[q] > len { q -= 1; }
+            let sym = 257 + q as u32;
+            if sym < 280 { b.code(sym - 256, 7) } else { b.code(0xC0 + (sym - 280), 8) }
+            b.put(len - LB[q], LE[q]);
+            let mut dcode = 29; while DB[dcode] > dist { dcode -= 1; }
+            b.code(dcode as u32, 5); b.put(dist - DB[dcode], DE[dcode]);
+        };
+        for &target in &[65527u32, 65527 + 0x7e00] {
+            for al in 0..300u32 {
+                let mut b = Bits::new();
+                b.put(1, 1); b.put(1, 2);
+                let mut pos = 0u32;
+                fixed_lit(&mut b, 0); pos += 1;
+                fixed_ref(&mut b, 258, 1); pos += 258;
+                fixed_ref(&mut b, 258, 2); pos += 258;
+                fixed_ref(&mut b, 258, 20); pos += 258;
+                for _ in 0..al { fixed_lit(&mut b, 0); pos += 1; }
+                while pos + 258 + 30000 < target { fixed_ref(&mut b, 258, 1); pos += 258; }
+                let marker = pos;
+                for c in [97u32, 98, 99, 100, 88] { fixed_lit(&mut b, c); pos += 1; }
+                fixed_lit(&mut b, 0); pos += 1;
+                while pos + 258 <= target { fixed_ref(&mut b, 258, 1); pos += 258; }
+                let dist = pos - marker;
+                if dist <= 32768 { fixed_ref(&mut b, 4, dist); }
+                for c in [81u32, 82, 83, 84, 85, 86, 87, 89] { fixed_lit(&mut b, c); }
+                b.code(0, 7);
+                let p = b.pending(); b.put(0, p);
+                n += 1; if let Some(m) = check_c05(&b.out) { fail(&b.out, m); }
+            }
+        }
         // every sequence of one to three tiny blocks (empty / short stored, empty / one-literal / one-match fixed blocks):
         // streams whose blocks carry no tokens or no references at all are where the estimators' corner cases are
         for nb in 1..=3usize {
